@@ -153,8 +153,17 @@ def reparam_case(rng):
     eps = [rng.choice([-1.5, -0.5, 0.25, 0.5, 1.0, 2.0]) if not uni else rng.choice([0.125, 0.25, 0.5, 0.75])
            for _ in range(Leff)]
     ws = [rng.choice([1.0, -2.0, 0.5]) for _ in range(Leff)]
+    # variants: the plain site; normal_reparam vectorised by axis_size (so that it carries a sample_shape); the diagonal
+    # multivariate primitive (vector location and scale)
+    variant = "site"
+    if not uni and Leff == 1 and rng.random() < 0.5:
+        variant, Leff = "shaped", rng.choice([2, 3])
+        eps = [rng.choice([-1.5, -0.5, 0.25, 0.5, 1.0, 2.0]) for _ in range(Leff)]
+        ws = [rng.choice([1.0, -2.0, 0.5]) for _ in range(Leff)]
+    elif not uni and mu_vec and sg_vec and rng.random() < 0.5:
+        variant = "mvdiag"
     c = {"kind": "reparam", "uniform": uni, "theta": theta, "L": Leff, "ma": ma, "mb": mb, "sa": sa, "sb": sb,
-         "eps": eps, "ws": ws, "mu_vec": mu_vec, "sg_vec": sg_vec}
+         "eps": eps, "ws": ws, "mu_vec": mu_vec, "sg_vec": sg_vec, "variant": variant}
     saved = (adev.normal, adev.uniform)
 
     def scripted(a, b):
@@ -170,7 +179,13 @@ def reparam_case(rng):
         def f(t):
             mu = jnp.asarray(ma) + jnp.asarray(mb) * t if mu_vec else ma[0] + mb[0] * t
             sg = jnp.asarray(sa) + jnp.asarray(sb) * t if sg_vec else sa[0] + sb[0] * t
-            x = site(mu, sg)
+            if variant == "shaped":
+                # a site vectorised by axis_size: the batching rule re-creates it with sample_shape=(L,)
+                x = modular_vmap(lambda: site(mu, sg), axis_size=Leff)()
+            elif variant == "mvdiag":
+                x = adev.multivariate_normal_diag_reparam(mu, sg)
+            else:
+                x = site(mu, sg)
             x = jnp.reshape(x, (-1,))
             return jnp.sum(jnp.asarray(ws) * x) + x[0] * x[-1]
         d = f.jvp_estimate(Dual(jnp.float32(theta), jnp.float32(1.0)))
@@ -179,6 +194,77 @@ def reparam_case(rng):
         c["err"] = type(e).__name__ + ": " + str(e)[:200]
     finally:
         adev.normal, adev.uniform = saved
+    return c
+
+
+def catenum_case(rng):
+    """categorical_enum_parallel: logits = log(a_i + b_i theta) (so the masses are rational in theta), value
+    table c_i + d_i theta, optionally followed by a flip_enum site: exact value and derivative"""
+    from genjax import categorical_enum_parallel
+    K = rng.choice([2, 3, 4])
+    theta = rng.choice([0.0, 0.5, 1.0])
+    a = [rng.choice([0.5, 1.0, 2.0]) for _ in range(K)]
+    b = [rng.choice([0.0, 0.5, 1.0]) for _ in range(K)]
+    cc = [rng.choice([-1.0, 0.0, 2.0, 3.0]) for _ in range(K)]
+    d = [rng.choice([0.0, 1.0, -2.0]) for _ in range(K)]
+    with_flip = rng.random() < 0.4
+    pa, pb, fw = rng.choice([0.25, 0.5]), rng.choice([0.0, 0.125, 0.25]), rng.choice([1.0, -3.0])
+    c = {"kind": "catenum", "K": K, "theta": theta, "a": a, "b": b, "c": cc, "d": d, "with_flip": with_flip,
+         "pa": pa, "pb": pb, "fw": fw}
+    try:
+        @expectation
+        def f(t):
+            logits = jnp.log(jnp.asarray(a) + jnp.asarray(b) * t)
+            i = categorical_enum_parallel(logits)
+            v = jnp.asarray(cc)[i] + jnp.asarray(d)[i] * t
+            if with_flip:
+                z = flip_enum(pa + pb * t)
+                v = v + jnp.where(z, fw * (1.0 + t), 0.0)
+            return v
+        dd = f.jvp_estimate(Dual(jnp.float32(theta), jnp.float32(1.0)))
+        c["p"], c["t"] = fr(dd.primal), fr(dd.tangent)
+        c["est"] = fr(f.estimate(jnp.float32(theta)))
+        c["grad"] = fr(f.grad_estimate(jnp.float32(theta)))
+    except Exception as e:  # noqa: BLE001
+        c["err"] = type(e).__name__ + ": " + str(e)[:200]
+    return c
+
+
+def mvdvec_case(rng):
+    """a batched flip_mvd site (vector of probabilities): the lane-wise measure-valued estimator, per scripted
+    outcome vector; the harness tabulates f on all outcome vectors (value and d/dtheta) from the same formula"""
+    L = rng.choice([2, 2, 3])
+    theta = rng.choice([0.0, 0.5, 1.0])
+    pa = [rng.choice([0.25, 0.5]) for _ in range(L)]
+    pb = [rng.choice([-0.5, 0.25, 0.5, 1.0]) for _ in range(L)]
+    w = [rng.choice([1.0, -1.0, 3.0]) for _ in range(L)]
+    wt = [rng.choice([0.0, 1.0, 2.0]) for _ in range(L)]
+    c0, c1, x = rng.choice([0.0, 1.0, -2.0]), rng.choice([0.0, 1.0, 2.0]), rng.choice([0.0, 2.0])
+    c = {"kind": "mvdvec", "L": L, "theta": theta, "pa": pa, "pb": pb, "runs": []}
+
+    def fval(bits):
+        v = c0 + c1 * theta + sum((w[i] + wt[i] * theta) for i in range(L) if bits[i]) + (x if bits[0] and bits[1] else 0.0)
+        dv = c1 + sum(wt[i] for i in range(L) if bits[i])
+        return [v, dv]
+    outcomes = list(itertools.product([False, True], repeat=L))
+    c["table"] = [[list(b), fval(b)] for b in outcomes]
+    saved = adev.flip
+    try:
+        for b in outcomes:
+            adev.flip = types.SimpleNamespace(sample=lambda p, b=b: jnp.asarray(b), logpdf=saved.logpdf)
+
+            @expectation
+            def f(t):
+                p = jnp.asarray(pa) + jnp.asarray(pb) * t * 0.25
+                bits = flip_mvd(p)
+                v = c0 + c1 * t + jnp.sum(jnp.where(bits, jnp.asarray(w) + jnp.asarray(wt) * t, 0.0))
+                return v + jnp.where(jnp.logical_and(bits[0], bits[1]), x, 0.0)
+            d = f.jvp_estimate(Dual(jnp.float32(theta), jnp.float32(1.0)))
+            c["runs"].append({"bits": list(b), "p": fr(d.primal), "t": fr(d.tangent)})
+    except Exception as e:  # noqa: BLE001
+        c["err"] = type(e).__name__ + ": " + str(e)[:200]
+    finally:
+        adev.flip = saved
     return c
 
 
@@ -357,7 +443,8 @@ def main():
     cases = []
     if which == "c11":
         for i in range(n):
-            cases.append(consistency_case(rng, sd * 3 + i // 6) if i % 6 == 5 else c11_case(rng) if i % 3 != 2 else reparam_case(rng))
+            cases.append(consistency_case(rng, sd * 3 + i // 6) if i % 6 == 5 else (catenum_case(rng) if i % 12 == 4 else mvdvec_case(rng)) if i % 6 == 4
+                         else c11_case(rng) if i % 3 != 2 else reparam_case(rng))
     else:
         cases.extend(canon_cases())
         names = sorted(det_programs())
